@@ -2,6 +2,7 @@ package main
 
 import (
 	"fmt"
+	"golang.org/x/tools/go/ssa"
 	"os"
 )
 
@@ -33,6 +34,30 @@ func init() {
 		for _, u := range []int{0, 1} {
 			ps, ok := p.enumPaths(f, u, 200000)
 			fmt.Println("unroll", u, "ok", ok, len(ps), "blocks", len(f.Blocks))
+		}
+	})
+}
+
+func init() {
+	if os.Getenv("DBG_HAVOC") == "" {
+		return
+	}
+	register("DBGH", func(p *Prog, r *Report) {
+		f := p.Func(os.Getenv("DBG_PKG"), os.Getenv("DBG_HAVOC"))
+		keep := map[*ssa.Function]bool{}
+		for _, g := range p.srcFuncs {
+			if g.Name() == "writeFileIfChanged" || g.Name() == "TranslatePackages" {
+				keep[g] = true
+			}
+		}
+		ips, ok := p.ipathsHavoc(f, keep)
+		fmt.Println("ok", ok, len(ips))
+		for _, ip := range ips {
+			if ip.Exit != "return" {
+				continue
+			}
+			fmt.Println("PATH", ip.Exit, ip.Trace[:80])
+			fmt.Println("  rels", relList(ip.Rels))
 		}
 	})
 }
